@@ -110,7 +110,15 @@ def gen_kick_cases(rng, count, sizes, nbs=(1, 2, 3), prefix="k", want_parts=True
                    fam=fam, dfam=dfam)
         rec["interior"] = is_interior(axis, n, it, nb, lb, off, data)
         rec["table_edge"] = touches_table_edge(axis, n, it, nb, lb, off, data)
-        rec["optext"] = C.kick_case(cid, axis, n, it, nb, lb if axis == "y" else -1, off, data, parts)
+        # every third case: the map has a past - an earlier displacement field (fractional rows, rows thrown out of the grid,
+        # NaN) was installed and applied first; every fourth: the interpolation-clamp switch is on (the CPU path ignores it)
+        off0 = None
+        if k % 3 == 1:
+            off0 = [rng.choice([f32(rng.uniform(-amp, amp)), f32(rng.uniform(-amp, amp)), float(n), -float(n), float("nan"),
+                                f32(n / 2 - 0.5), 0.0]) for _ in range(n * nb)]
+        rec["history"] = off0 is not None
+        rec["clamp"] = 1 if k % 4 == 2 else 0
+        rec["optext"] = C.kick_case(cid, axis, n, it, nb, lb if axis == "y" else -1, off, data, parts, clamp=rec["clamp"], off0=off0)
         out.append(rec)
     return out
 
